@@ -187,7 +187,7 @@ func NewSim(ch *Chooser, stepCtr *atomic.Int64) *Sim {
 		ctlGoid:  runtime.VerifGoid(),
 		KeepLog:  true,
 		MaxSteps: 120_000,
-		MaxEmits: 6000,
+		MaxEmits: 2500,
 	}
 	verifhook.H = s
 
@@ -429,7 +429,7 @@ func (s *Sim) run(done func() bool, horizon time.Duration, stopOnFail bool) bool
 		if s.overrun && stopOnFail {
 			return false
 		}
-		limit := s.MaxSteps
+		limit := s.MaxSteps + 2000*int64(s.Now()/time.Second) // legitimate timer traffic grows with virtual time
 		if !stopOnFail {
 			limit += 200_000 // teardown gets a further allowance
 		}
